@@ -632,6 +632,7 @@ func c13Run(c *Ctx) {
 	heapPatchOpGen(c, c.N(400)) // heap_share2.go
 	heapSetOpGen(c, c.N(300))   // heap_share2.go
 	c13RunLook(c)               // syntax look-alike keys, rare shapes, TMPDIR on another file system (c13_look.go)
+	c13oxRun(c)                 // ExecOp, TemplateFileOp, Html2DomOp, ValOrRef / AnyVal decoding (c13_opsext.go)
 }
 
 // c13Heads / c13Tails: special beginnings and endings of imported files.
@@ -711,6 +712,7 @@ func c13NodeWire(n dom.Node, depth int, budget *int) W {
 func c13NodeCount(w W) int { return wireSize(w) }
 
 func c13Eval(c *Ctx, kind string, raw []byte) {
+	c13oxEval(c, kind, raw) // c13_opsext.go: the kinds "ox-…"
 	switch kind {
 	case "heap-patchop":
 		heapPatchOpEval(c, raw) // heap_share2.go
